@@ -51,6 +51,8 @@ def curated(tier):
         add("facet_piola", cell, p={"family": "BDM"})
         add("dS_piola", cell)
         add("dS_piola", cell, p={"family": "N1curl"})
+    for cell in ("triangle", "hexahedron"):
+        add("cond_ties", cell, p={"facets": True}, data_fixed={"w": 0.0, "c": 2.0})
     add("facet_plain", "prism")
     add("facet_plain", "prism", p={"degree": 2})
     # mixed-dimensional forms (functions on the facet mesh), sub-meshes of codimension 0, ridge integrals
